@@ -12,7 +12,6 @@ import json
 import os
 import re
 import shutil
-import threading
 from concurrent.futures import ThreadPoolExecutor
 
 import projgen2
@@ -195,13 +194,3 @@ def run_veryl(cmd, cwd, home, timeout=600):
 def tail(s, n=1200):
     s = "\n".join(l for l in s.splitlines() if "Processing file" not in l)
     return s[-n:]
-
-
-class Progress:
-    def __init__(self, total, every=10):
-        self.total, self.done, self.every = total, 0, every
-        self.lock = threading.Lock()
-
-    def tick(self):
-        with self.lock:
-            self.done += 1
